@@ -34,7 +34,8 @@ NUMERIC = ["equal_to", "not_equal_to", "less_than", "greater_than", "less_than_o
            "equal_to_approx", "truthy", "falsy", "null"]
 DTYPE_FNS = ["equal_to", "not_equal_to", "in_", "not_in"]
 TYPE_NAMES = ["int", "float", "str", "list", "dict", "bool", "path"]
-PATHLIKE_LITERALS = [{"path": ["A"]}, {"path": 3}, {"path.length": ["a"]}, {"Path": ["A"]}, {"PATH.first": [1]},
+PATHLIKE_LITERALS = [{" path": ["A"]}, {"path ": ["A"]}, {"Path .length": ["A"]}, {"path. length": ["A"]}, {"\tpath": 1}, {"path\n": ["A"]},
+                     {"path": ["A"]}, {"path": 3}, {"path.length": ["a"]}, {"Path": ["A"]}, {"PATH.first": [1]},
                      {"path": ["a"], "b": 2}, {"path.x.y.z": 1}, {"a": {"path": ["q"]}}, {"pathway": 1}, {"path.": []}, {"paths": [1]}, {"pathname": "x"},
                      {"path_to": ["a"]}, {"k": [{"path": 1}]}, [[{"path": 1}]], {"k": {"j": {"path": ["a"]}}}, [{"k": [{"Path.length": 2}]}]]
 
